@@ -126,7 +126,7 @@ impl Op {
         let hk = |i: usize| hex(&self.keys[i]);
         match self.name {
             "GET" | "STRLEN" | "INCR" | "GETDEL" | "TYPE" | "LPOP" | "RPOP" | "LLEN" | "LRANGE" | "FGET" | "PGET" | "EGET" | "ESGET" | "XSGET"
-            | "EINCR" | "ESINCR" => {
+            | "EINCR" | "ESINCR" | "XINCR" => {
                 format!("{} {}", self.name, hk(0))
             }
             "SET" | "SETNX" | "APPEND" | "GETSET" | "FSET" | "PSET" | "ESET" | "ESSET" | "EVAL0SET" => {
@@ -243,6 +243,9 @@ fn show_keys(ks: &[Vec<u8>]) -> String {
 }
 
 /// a Lua script through EVAL, or through SCRIPT LOAD + EVALSHA
+/// GET, add one in Lua, SET, return the new value (integers only: the counter class)
+pub const XINCR_SCRIPT: &str = "local v = redis.call('GET', KEYS[1]) if not v then v = 0 else v = tonumber(v) end redis.call('SET', KEYS[1], tostring(v + 1)) return v + 1";
+
 pub async fn run_script(st: &State, script: &str, by_sha: bool, keys: Vec<String>, args: Vec<SDS>) -> RespValue {
     if by_sha {
         let sha = match st.execute(&Command::ScriptLoad(script.to_string())).await {
@@ -286,6 +289,9 @@ pub async fn apply(st: &State, op: &Op) -> String {
             let args: Vec<SDS> = op.vals.iter().map(|v| sds(v)).collect();
             r1(&run_script(st, script, op.name.starts_with("ES"), vec![k0()], args).await)
         }
+        // a MULTI-CALL script: read, compute in Lua, write back — an increment iff the whole script is
+        // one atomic step of the key's shard (two redis.call's inside ONE ShardMessage)
+        "XINCR" => r1(&run_script(st, XINCR_SCRIPT, false, vec![k0()], vec![]).await),
         "GETDEL" => r1(&st.execute(&Command::GetDel(k0())).await),
         "GETSET" => r1(&st.execute(&Command::GetSet(k0(), sds(&op.vals[0]))).await),
         "TYPE" => r1(&st.execute(&Command::TypeOf(k0())).await),
@@ -689,12 +695,12 @@ fn val(rng: &mut Rng) -> Vec<u8> {
     }
 }
 
-struct Ctx {
-    fixed: bool,
+pub(crate) struct Ctx {
+    pub(crate) fixed: bool,
 }
 
 impl Ctx {
-    fn gen(&self, k: &[u8], n: usize) -> usize {
+    pub(crate) fn gen(&self, k: &[u8], n: usize) -> usize {
         match std::str::from_utf8(k) {
             Ok(x) if !self.fixed => h_str(x, n),
             _ => h_bytes(k, n),
@@ -1108,6 +1114,12 @@ pub struct Pending {
     /// the 1-shard vs N-shard difference observed on the real code, if any
     diverged: Option<(String, String, serde_json::Value)>,
     shards: usize,
+}
+
+impl Pending {
+    pub(crate) fn new(start: usize, end: usize, class: &str, listed: Option<String>, diverged: Option<(String, String, serde_json::Value)>, shards: usize) -> Pending {
+        Pending { start, end, class: class.to_string(), listed, diverged, shards }
+    }
 }
 
 /// The CAUSE of a listed finding, looked for in the case itself (never a symptom):
@@ -1630,6 +1642,17 @@ pub fn run(a: &Args) {
         for c in corpus(&ctx) {
             run_case(&mut out, &mut pend, &ctx, &c).await;
         }
+        // the sharding model over the M7 reference executor: fixed timed streams, every run
+        for (label, steps) in crate::c03m7::corpus() {
+            for n in [2usize, 4, 8] {
+                crate::c03m7::run_steps(&mut out, &mut pend, &ctx, n, label, &steps).await;
+            }
+        }
+        for n in [4usize] {
+            for (label, steps) in crate::c03m7::after_deadline(&ctx, n) {
+                crate::c03m7::run_steps(&mut out, &mut pend, &ctx, n, &label, &steps).await;
+            }
+        }
         crate::api::report(&mut out);
         crate::routes::run(&mut out).await;
         let carries = detect_carries(&ctx).await;
@@ -1661,6 +1684,11 @@ pub fn run(a: &Args) {
                 random_case(&ctx, &mut r)
             };
             run_case(&mut out, &mut pend, &ctx, &c).await;
+            if r.chance(1, 5) {
+                let n = *r.pick(&[2usize, 3, 4, 8, 16]);
+                let steps = crate::c03m7::random_steps(&ctx, &mut r, n);
+                crate::c03m7::run_steps(&mut out, &mut pend, &ctx, n, "", &steps).await;
+            }
             if r.chance(1, 6) {
                 if r.chance(1, 3) {
                     let (tn, tops) = timed_random(&ctx, &mut r);
@@ -1712,17 +1740,17 @@ pub fn run(a: &Args) {
     }
     out.extra.insert("audit".into(), serde_json::from_str(r####"{
  "1 entry paths": "CLOSED: build.rs derives ShardMessage variants / ShardHandle fns / ShardedActorState pub fns from sharded_actor.rs, src/api.rs accounts for each (unaccounted → C03:api-not-covered); routes_gen.rs classifies every Command variant exhaustively, 82 key-bearing variants × 29 keys route-probed; EvictExpired driven (EVICT tick); OPEN: BatchCommand / execute_fire_and_forget (dead code, no caller), adaptive/metrics fns (not keyspace; probed only for non-interference)",
- "2 input alphabet": "CLOSED: keys from a structured alphabet (tags empty/non-empty/nested/unbalanced, families, punctuation, CR LF, glob metacharacters, high bytes, non-UTF-8 on byte paths, empty, 300-byte); values: empty, binary / non-UTF-8, integers at i64 limits, 1 MiB; glob patterns of every shape; OPEN: value types other than string/list are covered only by the route probes (1-vs-N oracle, string pre-state), not by the model",
+ "2 input alphabet": "CLOSED: keys from a structured alphabet (tags empty/non-empty/nested/unbalanced, families, punctuation, CR LF, glob metacharacters, high bytes, non-UTF-8 on byte paths, empty, 300-byte); values: empty, binary / non-UTF-8, integers at i64 limits, 1 MiB; glob patterns of every shape; CLOSED (session 3): class m7 — all five value types, expiry commands and multi-call scripts as timed streams against the sharding model instantiated with the M7 reference executor (Props/C03M7.lean); OPEN: on the byte paths (fast/pooled/batch) values are strings by construction",
  "3 comparisons at equality": "CLOSED: deadline just before / at / just past / far (every read path); DEL with 1 vs ≥ 2 keys (fan-out threshold); MSET on one vs several shards; SCAN count vs matches; shard counts at the clamp bounds (0, 1, 256, 1000)",
  "4 configuration": "CLOSED: shard counts 0,1,2,3,5,7,64,256,1000 (clamping, non-powers of two), adaptive features on, PerformanceConfig through validate() with response-pool capacity 0/1/2/256 and prewarm 0..capacity+1; OPEN: buffers / batching / connection_pool fields are connection-level (C04)",
  "5 capacity thresholds": "CLOSED: response pool crossed (capacity 1, > capacity outstanding), 2000-key keyspaces on 16/64 shards, batches of 500 pairs; OPEN: none known at this layer (mailboxes are unbounded)",
  "6 fault kinds": "N/A at this layer (no I/O); task cancellation is C02's (abandon)",
- "7 history shapes": "CLOSED: expiry passing between steps on every path, clock standing still / going backwards / jumping 2^44 ms (correspondence only: the 1-vs-N claim is for monotone time), type changes on a key, FLUSH in the middle, scripts introduced via one shard and used via another; OPEN: restart / reload does not exist at this layer",
- "8 node-global state": "CLOSED: script cache in the model (script_cache_global_refines); CONFIG, CLIENT name, SCRIPT FLUSH, DBSIZE/FLUSHALL fan-out probed 1 vs 4 shards; OPEN: INFO (process-dependent fields not compared), ACL stubs",
+ "7 history shapes": "CLOSED: per-command after-deadline corpus (57 commands of every value type x before/at/after/far, only other shards see traffic while the deadline passes; self-tested: collection lookups skipping set_time), expiry passing between steps on every path, clock standing still / going backwards / jumping 2^44 ms (correspondence only: the 1-vs-N claim is for monotone time), type changes on a key, FLUSH in the middle, scripts introduced via one shard and used via another; OPEN: restart / reload does not exist at this layer",
+ "8 node-global state": "CLOSED: routing state immutable at run time (source-derived: plain fields, no &mut self, no assignment, no consumer of ScalingDecision; rebalance probe); script cache in the model (script_cache_global_refines); CONFIG, CLIENT name, SCRIPT FLUSH, DBSIZE/FLUSHALL fan-out probed 1 vs 4 shards; OPEN: INFO (process-dependent fields not compared), ACL stubs",
  "9 observations": "CLOSED: replies, aggregate dump through generic AND byte paths, KEYS as multiset, what exists after the clock passes deadlines (DBSIZE/EXISTS/GET through every path), EVICT tick count (model, not 1-vs-N: legitimately shard-count dependent); OPEN: TTL/PTTL values are C01's; panics of a shard actor surface as 'ERR shard response failed' replies (seen as disagreements), not caught separately",
  "10 finding absorption": "CLOSED: listed findings attributed by cause + model prediction (resolve); new finding C03:script-undeclared-key added by cause",
  "11 harness fragility": "CLOSED: routing probe no longer relies on RENAME; predictor unavailability reported; OPEN: a panic inside the harness' own tasks aborts the run (reported by check as harness exit)",
  "monotone time hypothesis": "shard_count_unobservable_timed assumes non-decreasing virtual time. The real system CAN violate it per shard: get_current_virtual_time() is read before the message is enqueued, so two concurrent clients can enqueue stamps out of order (and a wall clock can step back); the model covers this (setTime with a smaller now), the correspondence exercises it (timed:nonmonotone-clock) and agrees. It is not a defect: a single client's command sequence (the property's quantifier) has monotone stamps; with concurrent clients a stale-stamped message overlaps the deadline in real time and either answer is linearizable; evicted keys never come back because eviction is permanent"
 }"####).unwrap());
-    out.finish("case = one command sequence (8..40 ops over 3..9 keys; corpus cases up to 80 ops) run on real ShardedActorState instances with 1 and N ∈ {2,3,4,8,16} shards and on the model: single-key string/list commands, MGET/MSET/DEL/EXISTS fan-out, KEYS/DBSIZE/FLUSH, fast/pooled/batch byte paths (incl. non-UTF-8 keys), two-key commands, MSETNX, SCAN, RANDOMKEY; KEYS / SCAN MATCH patterns of every shape (literal only for an existing / a missing key, `*`, `?`, classes, negated classes, ranges, degenerate ranges, unterminated `[`, empty classes, mixed) over keyspaces of 8..45 keys spread over the shards; plus timed streams (SET [PX|EX], GET, EXISTS, DBSIZE, MGET/MSET, fast/pooled GET/SET, fast_batch_get/set_pipeline with the simulated clock advanced between commands: random streams, and the structured pattern `deadline; clock just before / at / just past / far past it; traffic for other shards only or none; read through one path` for every read path — distribution under timed:path=…; non-trivial iff a TTL is set, time passes and something is read); distinct by shard count + op text; non-trivial iff its keys live on ≥ 2 shards and it contains a fan-out, byte-path or two-key command");
+    out.finish("class m7: timed streams (8..36 steps over 5 keys) of the WHOLE M7 command set (redisx generators of C01 minus GETSET / SPOP / RANDOMKEY / non-UTF-8 members) + 4 multi-call Lua scripts + TTL ticks + dumps through the real execute() on 1 and N ∈ {2,3,4,8,16} shards against Shards.M7.execNT7code, plus the fixed per-command after-deadline corpus; otherwise: case = one command sequence (8..40 ops over 3..9 keys; corpus cases up to 80 ops) run on real ShardedActorState instances with 1 and N ∈ {2,3,4,8,16} shards and on the model: single-key string/list commands, MGET/MSET/DEL/EXISTS fan-out, KEYS/DBSIZE/FLUSH, fast/pooled/batch byte paths (incl. non-UTF-8 keys), two-key commands, MSETNX, SCAN, RANDOMKEY; KEYS / SCAN MATCH patterns of every shape (literal only for an existing / a missing key, `*`, `?`, classes, negated classes, ranges, degenerate ranges, unterminated `[`, empty classes, mixed) over keyspaces of 8..45 keys spread over the shards; plus timed streams (SET [PX|EX], GET, EXISTS, DBSIZE, MGET/MSET, fast/pooled GET/SET, fast_batch_get/set_pipeline with the simulated clock advanced between commands: random streams, and the structured pattern `deadline; clock just before / at / just past / far past it; traffic for other shards only or none; read through one path` for every read path — distribution under timed:path=…; non-trivial iff a TTL is set, time passes and something is read); distinct by shard count + op text; non-trivial iff its keys live on ≥ 2 shards and it contains a fan-out, byte-path or two-key command");
 }
